@@ -136,6 +136,10 @@ int vf_run_case(Src &s, Report &r) {
 			uint8_t *line = (uint8_t *) malloc(bpl); memcpy(line, raw + y * bpl, bpl);
 			uint8_t *buf = (uint8_t *) malloc(pbytes);
 			if (ok3 && vbi3_bit_slicer_slice(bs, buf, pbytes, line)) recognised = true;
+			// an output buffer smaller than the payload must be refused, not overrun (the size is a parameter of the call)
+			if (ok3 && pbytes > 1) { unsigned small = s.pick(pbytes); uint8_t *b2 = (uint8_t *) malloc(small ? small : 1);
+				if (vbi3_bit_slicer_slice(bs, b2, small, line)) rc = r.fail("C05:slicer-accepts-short-buffer", "vbi3_bit_slicer_slice returned TRUE with buffer_size %u for a service with %u payload bytes (service 0x%x)", small, pbytes, b->service);
+				free(b2); r.cls("slicer:short-output-buffer"); }
 			if (vbi_bit_slice(&ls, line, buf)) recognised = true;
 			free(buf); free(line);
 		}
